@@ -583,6 +583,52 @@ func runCase(c *caseIn) (o obs, direct string) {
 			return up.Flush(ctx)
 		}
 		follow = func(ctx context.Context) error { return up.Close(ctx) }
+	case "ScReadManyGroups":
+		// one chunk with c.Pos groups addressed by data id ALIAS; the ack flush ticks every
+		// millisecond and a goroutine polls State(): writers of the stream mutex keep arriving
+		// while ReadDataPoints resolves the aliases
+		cl, _, es := guarded(setupWd, func() error {
+			ctx, cancel := bg(2 * time.Second)
+			defer cancel()
+			var err error
+			down, err = conn.OpenDownstream(ctx, []*message.DownstreamFilter{message.NewDownstreamFilterAllFor("src")},
+				iscp.WithDownstreamAckFlushInterval(time.Millisecond), iscp.WithDownstreamDataIDs([]*message.DataID{dataID}))
+			return err
+		})
+		if cl != "ONil" {
+			return o, "harness: open downstream: " + cl + " " + es
+		}
+		{
+			alias := e.downAlias.Load()
+			big := chunk(alias)
+			gs := make([]*message.DataPointGroup, c.Pos)
+			for i := range gs {
+				gs[i] = &message.DataPointGroup{DataIDOrAlias: message.DataIDAlias(1), DataPoints: []*message.DataPoint{point()}}
+			}
+			big.StreamChunk.DataPointGroups = gs
+			stop := make(chan struct{})
+			go func() {
+				for {
+					select {
+					case <-stop:
+						return
+					default:
+						down.State()
+						time.Sleep(20 * time.Microsecond)
+					}
+				}
+			}()
+			time.AfterFunc(3*time.Second, func() { close(stop) })
+			brokerSide = func() { sess().Send(big) }
+		}
+		call = func(ctx context.Context) error {
+			ch, err := down.ReadDataPoints(ctx)
+			if err == nil && len(ch.DataPointGroups) != c.Pos {
+				return fmt.Errorf("read %d groups, sent %d", len(ch.DataPointGroups), c.Pos)
+			}
+			return err
+		}
+		follow = func(ctx context.Context) error { return down.Close(ctx) }
 	case "ScFloodThenRequest":
 		// the broker floods the client with messages the application never collects, then answers a request at once
 		if d := openDown(); d != "" {
@@ -790,6 +836,10 @@ func main() {
 				j.PingInt, j.PingTo = 2000, 2000
 				jobs = append(jobs, j)
 			}
+			// ReadDataPoints of a chunk with many alias groups under ack-flush ticks and State() polling
+			for _, k := range []int{2000, 8000} {
+				jobs = append(jobs, mk("ScReadManyGroups", "BAnswer", k, 300, 5000))
+			}
 			// Upstream.Close, ack withheld, close timeout (120) and context (200) both expire while sent.List (350 ms) runs
 			for _, lst := range []int{350, 500} {
 				j := mk("ScUpCloseSlowList", "BDrop", 0, 200, 120)
@@ -854,7 +904,7 @@ func main() {
 		w.Count("beh:" + jobs[i].Beh)
 		w.Count("class:" + cs.Observed.(obs).Class)
 	}
-	rule := "every API scenario (open up/down, write, flush, read, read-metadata, metadata, call, call-and-wait, stream close up/down, conn close) x exchange position x broker behaviour {answer, delay 60 ms, drop, misaddress (reply for another request id / stream alias / call id / unsubscribed source node), disconnect (loud; thorough also silent)} with a context deadline of 100-300 ms, ping 20/40 ms, close timeout 5 s and 120 ms; plus 1/3/8 Flush calls with a cancelled context followed by Write+Flush and Close, an inbound flood of 200/1100/3300 uncollected calls, reply calls, chunks and metadata followed by a request, Conn.Close and Upstream.Close during an outage with failing redials (loud / silent), Upstream.Close whose deadlines expire while the sent storage's List is in progress (slow storage), request-after-close (former F5), State() after a late ack (former F13), Conn.Close while another request is in flight (F31). non-trivial = behaviour other than answer; distinct = distinct Coq case terms (durations included)"
+	rule := "every API scenario (open up/down, write, flush, read, read-metadata, metadata, call, call-and-wait, stream close up/down, conn close) x exchange position x broker behaviour {answer, delay 60 ms, drop, misaddress (reply for another request id / stream alias / call id / unsubscribed source node), disconnect (loud; thorough also silent)} with a context deadline of 100-300 ms, ping 20/40 ms, close timeout 5 s and 120 ms; plus 1/3/8 Flush calls with a cancelled context followed by Write+Flush and Close, ReadDataPoints of a chunk with 2000/8000 alias-addressed groups under a 1 ms ack flush and a State() poller, an inbound flood of 200/1100/3300 uncollected calls, reply calls, chunks and metadata followed by a request, Conn.Close and Upstream.Close during an outage with failing redials (loud / silent), Upstream.Close whose deadlines expire while the sent storage's List is in progress (slow storage), request-after-close (former F5), State() after a late ack (former F13), Conn.Close while another request is in flight (F31). non-trivial = behaviour other than answer; distinct = distinct Coq case terms (durations included)"
 	if err := w.Flush(*seed, *tier, rule, true, nil); err != nil {
 		fmt.Fprintln(os.Stderr, err)
 		os.Exit(2)
